@@ -13,6 +13,13 @@ func BeginBlocker(ctx sdk.Context, k keeper.Keeper) {
 	defer telemetry.ModuleMeasureSince(types.ModuleName, time.Now(), telemetry.MetricKeyBeginBlocker)
 	subDistributors := k.GetParams(ctx).SubDistributors
 	states := k.GetAllStates(ctx)
+	for i := range states {
+		if states[i].Account == nil {
+			// a burn state read back from an imported genesis (or a migrated store) has no account,
+			// the distribution code expects the empty account the in-memory burn state carries
+			states[i].Account = &types.Account{}
+		}
+	}
 
 	for _, subDistributor := range subDistributors {
 		allCoinsToDistribute := k.PrepareCoinsToDistribute(subDistributor.Sources, ctx, states, subDistributor.Name)
